@@ -27,6 +27,7 @@ type Result struct {
 	Log      []string            `json:"log,omitempty"`
 	Infra    string              `json:"infra,omitempty"` // harness/infrastructure trouble: never a verdict
 	Installs int                 `json:"installs"`
+	post     []func(*Result)
 }
 
 const settleHorizon = 4 * time.Hour
@@ -34,6 +35,12 @@ const settleHorizon = 4 * time.Hour
 // execute runs one scenario inside its own synctest bubble.
 func execute(sc *Scenario, keepLog bool) (res *Result) {
 	res = &Result{Seed: sc.Seed, Probes: map[string]int{}, Faults: map[string]int{}}
+	defer func() {
+		for _, f := range res.post {
+			f(res)
+		}
+		res.post = nil
+	}()
 	defer func() {
 		if x := recover(); x != nil {
 			msg := fmt.Sprint(x)
@@ -87,6 +94,7 @@ func (r *Run) finish(res *Result) {
 		res.Made[i] = c.V
 	}
 	res.Log = s.Log
+	res.post = r.post
 }
 
 func runCore(sc *Scenario, res *Result, keepLog bool) {
